@@ -10,15 +10,16 @@ RegInit(g) == [p |-> [feeReg |-> g.feeReg, feeRec |-> g.feeRec, feePur |-> g.fee
 VestOrig(g, a, d) == IF "vesting" \in DOMAIN g /\ a \in DOMAIN g.vesting THEN g.vesting[a][d] ELSE 0
 StateOf(g) ==
   [time |-> 0, height |-> 2, halted |-> FALSE,
+   \* "grp": the group policy account (Chain.tla GExec), a party like any other but for its 32-byte address and the way it signs
    \* "gov": the governance module account acts for itself through proposals (it can be whitelisted, raise orders, hold locked eFUND)
-   bal |-> [a \in Range(g.accts) |-> [d \in Denoms |-> g.bal[a][d] + VestOrig(g, a, d)]] @@ [x \in ModuleAccts \cup {"gov"} |-> [nund |-> 0, other |-> 0]],
+   bal |-> [a \in Range(g.accts) |-> [d \in Denoms |-> g.bal[a][d] + VestOrig(g, a, d)]] @@ [x \in ModuleAccts \cup {"gov", "grp"} |-> [nund |-> 0, other |-> 0]],
    supply |-> [d \in Denoms |-> SumOver([a \in Range(g.accts) |-> g.bal[a][d] + VestOrig(g, a, d)], Range(g.accts))],
    vest |-> [a \in (IF "vesting" \in DOMAIN g THEN DOMAIN g.vesting ELSE {}) |->
                [orig |-> g.vesting[a], dv |-> [d \in Denoms |-> 0], df |-> [d \in Denoms |-> 0]]],
    ent |-> [p |-> [signers |-> g.ent.signers, min |-> g.ent.min, limit |-> g.ent.limit, denom |-> g.ent.denom],
             next |-> g.ent.startId, start |-> g.ent.startId, po |-> <<>>, rq |-> <<>>, aq |-> <<>>,
-            wl |-> [a \in Range(g.accts) \cup {"gov"} |-> Contains(g.ent.wl, a)], wlExtra |-> 0,
-            locked |-> [a \in Range(g.accts) \cup {"gov"} |-> 0], spent |-> [a \in Range(g.accts) \cup {"gov"} |-> 0],
+            wl |-> [a \in Range(g.accts) \cup {"gov", "grp"} |-> Contains(g.ent.wl, a)], wlExtra |-> 0,
+            locked |-> [a \in Range(g.accts) \cup {"gov", "grp"} |-> 0], spent |-> [a \in Range(g.accts) \cup {"gov", "grp"} |-> 0],
             totLocked |-> 0, totLockedDen |-> g.ent.denom, totSpent |-> 0],
    wrk |-> RegInit(g.wrk), bcn |-> RegInit(g.bcn),
    str |-> [p |-> [feeNum |-> g.str.feeNum, feeDen |-> g.str.feeDen], s |-> <<>>],
